@@ -103,6 +103,9 @@ def do_op(name, grid="std"):
     return f
 
 
+_LOADER_SEQ = itertools.count(1)
+
+
 def run_case(cfg):
     """cfg: closes, pool, dtype, open_bar, op, op_bar, hook, vols ('std'|'zero'). Returns per-bar observations."""
     from demeter.strategy.trigger import AtTimeTrigger
@@ -137,11 +140,46 @@ def run_case(cfg):
         raw = uni.raw_frame(m_closes, m0, m1, liq, open_tick=m_closes[0], tick_dtype=cfg["dtype"])
     else:
         raw = uni.raw_frame(closes, in0, in1, liq, open_tick=closes[0], tick_dtype=cfg["dtype"])
+    holes = cfg.get("holes") or ()
+    if holes:
+        for h in holes:
+            in0[h] = in1[h] = 0  # a minute without swaps: nothing was paid in, the pool stayed where it was (the config repeats the previous close there)
+        raw = uni.raw_frame(closes, in0, in1, liq, open_tick=closes[0], tick_dtype=cfg["dtype"])
     if cfg.get("gap_bars"):
         # the bar's own open / high / low columns describe the swaps INSIDE the bar: after a gap they start at the bar's close, not at the previous close
         for col in ("openTick", "lowestTick", "highestTick"):
             raw[col] = raw["closeTick"]
-    market = uni.make_market(pool, uni.prepared(raw, pool))
+    if holes:
+        # the history comes from minute FILES as the downloader writes them: no row for a minute without swaps (the first minute of the day included); the
+        # repository's loader re-indexes to the full minute grid and fills the holes (flows with 0, states with the last known value, a blank head with the first)
+        import datetime
+        import itertools as _it
+        import os
+        import shutil
+        import tempfile
+
+        import demeter.data.data_cache as dc
+        from demeter import MarketInfo
+        from demeter.uniswap import UniLpMarket
+
+        d = tempfile.mkdtemp(prefix="c08-loader-")
+        try:
+            dc.CACHE_PATH = os.path.join(d, "cache")  # harness process only: the loader's feather cache lives in ~/.demeter otherwise
+            dc.CACHE_CONFIG_PATH = os.path.join(dc.CACHE_PATH, "config.pkl")
+            addr = "0x" + format(next(_LOADER_SEQ), "x")
+            rows = raw.drop(index=[raw.index[h] for h in holes]).copy()
+            for col in rows.columns:
+                rows[col] = [int(v) for v in rows[col]]
+            rows.insert(0, "timestamp", rows.index)
+            day = raw.index[0].date()
+            rows.to_csv(os.path.join(d, f"ethereum-{addr}-{day.strftime('%Y-%m-%d')}.minute.csv"), index=False)
+            market = UniLpMarket(MarketInfo("uni"), pool, data_path=d)
+            market.load_data("ethereum", addr, day, day)
+            market.data = market.data.iloc[:n].copy()
+        finally:
+            shutil.rmtree(d, ignore_errors=True)
+    else:
+        market = uni.make_market(pool, uni.prepared(raw, pool))
     script = {("on_bar", cfg["open_bar"]): [do_op("open", grid)]}
     op, hook, ob = cfg["op"], cfg["hook"], cfg["op_bar"]
     if op != "none":
@@ -170,13 +208,32 @@ def run_case(cfg):
         # another market of the same account, registered BEFORE the pool under test, in which nothing is ever written
         other = uni.make_market(uni.pool_q0(0.3), uni.prepared(uni.raw_frame([200000] * len(raw.index), 0, 0, 10**18, open_tick=200000), uni.pool_q0(0.3)), "idle")
         markets = [other, market]
-    act = make_actuator(markets, [(pool.token0, 10**6), (pool.token1, 10**6 if grid == "zero" else 1000)], st, market.get_price_from_data(),
-                        interval=f"{k}min")
+    act = make_actuator(markets, [(pool.token0, 10**6), (pool.token1, 10**6 if grid == "zero" else 1000)], st,
+                        None if cfg.get("second_window") else market.get_price_from_data(), interval=f"{k}min")
     err = None
     try:
+        if cfg.get("second_window"):
+            # walk-forward: the same market object and actuator first run over ANOTHER window of history (other closes, other volumes, same bar interval), then the
+            # window under test is assigned to the market and the actuator runs again; the second run's bars are judged like any run's (its bar 0 has no
+            # previous bar of its own window and is only bounded)
+            other_closes = [TICKS[(2 * i + 1) % len(TICKS)] for i in range(len(raw.index))]
+            import datetime
+
+            other = uni.raw_frame(other_closes, [V0 * 3] * len(raw.index), [V1 // 7] * len(raw.index), liq * 2, open_tick=other_closes[0], tick_dtype=cfg["dtype"],
+                                  start=raw.index[0].to_pydatetime() - datetime.timedelta(days=1))  # the earlier window lies a day before the one under test
+            wanted = market.data
+            market.data = uni.prepared(other, pool)
+            act.set_price(market.get_price_from_data())
+            run_quiet(act)
+            market.data = wanted
+            act.set_price(market.get_price_from_data())  # every window comes with its own price series
+            obs.clear()
+            st.errors.clear()
         run_quiet(act)
     except Exception as e:
         err = f"{type(e).__name__}: {str(e)[:80]}"
+    if cfg.get("second_window") and err is None and len(obs) != n:
+        err = f"BarCount: the second window has {n} bars, the market was updated {len(obs)} times"
     return obs, st.errors, err, (in0, in1, liq, pool)
 
 
@@ -289,6 +346,14 @@ def configs(thorough):
                         "minutes_per_bar": k})
     for a, b in itertools.product(TICKS[::2], repeat=2):
         out.append({"closes": [TICKS[4], a, b], "pool": "small", "dtype": "float64", "open_bar": 0, "op": "add_same", "op_bar": 2, "hook": "on_bar", "minutes_per_bar": 2})
+    # minute files with holes (no row for a minute without swaps, a blank first minute) read by the repository's loader: the hole minutes repeat the previous close
+    for a, b, c in itertools.product(TICKS[::2], repeat=3):
+        out.append({"closes": [a, a, b, b, b, c, c, TICKS[4]], "holes": [0, 3, 4, 6], "pool": "small", "dtype": "float64", "open_bar": 1, "op": "none", "op_bar": 1, "hook": "on_bar"})
+    # a second window of history on the same market object and actuator (1-minute and resampled bars)
+    for a, b in itertools.product(TICKS[::2], repeat=2):
+        for k in (1, 5):
+            out.append({"closes": [TICKS[4], a, b], "pool": "small", "dtype": "float64", "open_bar": 0, "op": "none", "op_bar": 1, "hook": "on_bar", "minutes_per_bar": k,
+                        "second_window": True})
     # (3) the grid centred on tick 0: all 3-bar paths (previous close exactly 0 among them), and lending the position out
     for c in itertools.product(ZTICKS, repeat=3):
         out.append({"closes": list(c), "pool": "small", "dtype": "float64", "open_bar": 0, "op": "none", "op_bar": 1, "hook": "on_bar", "grid": "zero"})
@@ -343,7 +408,7 @@ def main(run: Run):
 def replay(run: Run, path):
     data = json.load(open(path))
     c = data["case"]
-    cfg = {k: c[k] for k in ("closes", "pool", "dtype", "open_bar", "op", "op_bar", "hook", "grid", "minutes_per_bar", "idle_market_first", "gap_bars") if k in c}
+    cfg = {k: c[k] for k in ("closes", "pool", "dtype", "open_bar", "op", "op_bar", "hook", "grid", "minutes_per_bar", "idle_market_first", "gap_bars", "second_window", "holes") if k in c}
     if "vols" in c:
         cfg["vols"] = c["vols"]
     part = Part()
